@@ -130,6 +130,7 @@ func genOptRaw(r *rand.Rand, ns *nameSpace, nsPrefix string, allowReq bool) *Opt
 	}
 	if allowReq && chance(r, 0.15) {
 		o.Required = true
+		o.ReqField = chance(r, 0.2) // made required through the public field after construction
 	}
 	if canArg && chance(r, 0.2) {
 		n := 1
@@ -169,6 +170,10 @@ func genOptRaw(r *rand.Rand, ns *nameSpace, nsPrefix string, allowReq bool) *Opt
 	}
 	if canArg && chance(r, 0.06) {
 		o.NoUnquote = true
+	}
+	if o.Kind == "func0" && chance(r, 0.08) {
+		o.ErrPtr = true
+		return o
 	}
 	if (o.Kind == "func0" || o.Kind == "func1") && o.Param == "" && chance(r, 0.3) {
 		v := ""
@@ -813,7 +818,12 @@ func perturb(r *rand.Rand, argv []string, scope []scopeOpt, t *Tree) []string {
 		if len(scope) > 0 && chance(r, 0.7) {
 			so := pick(r, scope)
 			if so.nsLong != "" {
-				switch r.Intn(4) {
+				switch r.Intn(5) {
+				case 4:
+					// only the namespace part of a namespaced name (what a short-only option of that group would be called, had it a long name)
+					if k := len(so.nsLong) - len(so.o.Long); k > 0 {
+						name = so.nsLong[:k]
+					}
 				case 0:
 					name = so.nsLong[:len(so.nsLong)-1]
 				case 1:
